@@ -46,6 +46,11 @@ theorem evOnSignal_ind (P : State → Prop)
     | disable j => exact hDis s1 j h1 hp1
     | destroy j => exact hDes s1 j h1 hp1
     | init j sg o => exact hInit s1 j _ o h1 hp1
+    | enableP j =>
+      show P (enableP repaired s1 j).1
+      unfold enableP; split
+      · exact hp1
+      · exact hEn s1 j h1 hp1
 
 /-! ### baseDisp -/
 
@@ -179,6 +184,11 @@ theorem baseDisp_step (s : State) (op : Op) (g : Nat) (h : Inv s) (hu : ∀ d, o
   | raiseW g' wf => exact baseDisp_raiseW s g' g wf hr
   | passC l ord cs => exact baseDisp_passC s l ord cs g h
   | setCap b => rfl
+  | enableP e =>
+    show baseDisp (enableP repaired s e).1 g = _
+    unfold enableP; split
+    · rfl
+    · exact baseDisp_enable s e g h
 
 theorem baseDisp_exec (s : State) (ops : List Op) (g : Nat) (h : Inv s) (hu : ∀ d, Op.setDisp g d ∉ ops)
     (hr : kresets s g ops = 0) (s' : State) (he : exec repaired s ops = some s') : baseDisp s' g = baseDisp s g := by
